@@ -100,7 +100,55 @@ def idxStep (acc : IdxStore × List String × Bool) (item : String) : Option (Id
     pure (s, (match s.get k with | some v => toHex v | none => "E") :: out, bad)
   | _ => none
 
+/-- the in-memory backend as it is: blob and tree ids come from the one shared dict -/
+def answerShared (ops : List Op) (st : St) (q : String) : Option String :=
+  match q.splitOn ":" with
+  | ["b", f, r] => do
+    pure (match sharedId ops (← fromHex f, ← fromHex r) with | some s => toHex s | none => "E")
+  | ["t", f, r] => do
+    pure (match sharedId ops (← fromHex f, ← fromHex r) with | some s => toHex s | none => "E")
+  | _ => answer .dict st q
+
+def showNode (n : IKey × B) : String :=
+  s!"{toHex n.1.1}:{toHex n.1.2.1}:{toHex n.1.2.2}={toHex n.2}"
+
+def parseGroups (s : String) : Option (List (List Op)) :=
+  if s == "-" then some [] else (s.splitOn "|").mapM parseOps
+
+/-- raw node queries: `G:<sha>`, `B:<fid>:<rev>`, `C:<revid>` -/
+def nodeKey (q : String) : Option IKey :=
+  match q.splitOn ":" with
+  | ["G", h] => (fromHex h).map gitKey
+  | ["B", f, r] => do pure (blobKey (← fromHex f) (← fromHex r))
+  | ["C", r] => (fromHex r).map commitKey
+  | _ => none
+
+def showGet (s : IdxStore) (k : IKey) : String :=
+  match s.get k with | some v => toHex v | none => "E"
+
 def handle : List String → String
+  | ["run", "dictshared", ops, qs] =>
+    match parseOps ops with
+    | some ops =>
+      let st := run .dict St.empty ops
+      match (qs.splitOn ";").mapM (answerShared ops st) with
+      | some as => ";".intercalate as
+      | none => "bad-op"
+    | none => "bad-op"
+  | ["nodes", op] =>
+    match parseOp op with
+    | some o => ";".intercalate ((opNodes o).map showNode)
+    | none => "bad-op"
+  | ["groups", gs, qs] =>
+    match parseGroups gs, (qs.splitOn ";").mapM nodeKey with
+    | some gs, some ks =>
+      match IdxStore.empty.runGroups gs with
+      | some s =>
+        let s' := IdxStore.reopen s.files.reverse
+        ";".intercalate (ks.map (showGet s)) ++ " " ++ ";".intercalate (ks.map (showGet s')) ++ " " ++
+          toString s.files.length
+      | none => "E:script"
+    | _, _ => "bad-op"
   | ["run", b, ops, qs] =>
     match parseBackend b, parseOps ops with
     | some b, some ops =>
